@@ -68,6 +68,7 @@ Implicit Types a b c v x : seq R.
 Definition ifun (p : nat) a : 'I_p.+1 -> R := fun i => vnth a i.
 Arguments ifun p a : clear implicits.
 
+
 Lemma subm_ord p (i j : 'I_p.+1) : subm p.+1 i j = (i - j)%R :> nat.
 Proof.
   rewrite /subm /= (modn_small (ltn_ord j)) modnDmr.
@@ -237,3 +238,4 @@ Theorem hrr_bind_equal a b : size a = size b -> hrr_bind a b = Ok (hrr_bind_core
 Proof. by rewrite /hrr_bind => ->; rewrite eqxx. Qed.
 
 End Bridge.
+Arguments ifun {R} p a _.
